@@ -483,7 +483,7 @@ def run(ctx):
     ctx.extra["exhaustive_single_call_max_ploidy"] = maxp
     ctx.extra["exhaustive_single_call_files"] = len(ex)
     # 2. random files
-    n = ctx.n(450, 6000)
+    n = ctx.n(450, 5000)
     specs = [uv.gen_spec(rng) for _ in range(n)]
     for s in specs[:2]:
         ctx.sample({"input": uv.write_text(s)})
